@@ -83,6 +83,12 @@ def gen_cases(rng, tier):
                 labels.append(bytes(rng.randrange(256) for _ in range(ln)))
         yield {'kind': 'vwlb', 'markers': [[rng.choice([1, 2, 30, 32767, -32768, rng.randrange(-2 ** 15, 2 ** 15)]), l] for l in labels],
                'enc': rng.choice(['mac_roman', 'mac_roman', 'latin-1'])}
+        # multi-byte encodings: the stored offsets are byte offsets, a label is its own bytes decoded
+        menc = rng.choice(['shift_jis', 'utf-8', 'euc_kr'])
+        alphabet = {'shift_jis': '\u958b\u59cb\u7d42\u4e86Play ab', 'utf-8': 'Men\u00fa\u2026 \u958b\u59cbok', 'euc_kr': '\uc2dc\uc791 \ub05d go'}[menc]
+        mlabels = [''.join(rng.choice(alphabet) for _ in range(rng.choice([0, 1, 2, 4, 7]))).encode(menc) for _ in range(rng.choice([1, 2, 3, 6]))]
+        yield {'kind': 'vwlb', 'markers': [[rng.choice([1, 2, 30, 100]), l] for l in mlabels], 'enc': menc}
+        yield {'kind': 'lnam', 'hdr': [0, 0, 7, 7, 0], 'names': [l[:255] for l in mlabels], 'enc': menc, 'tail': b''}
         ver = rng.choice([0x0400, 0x04bf, 0x04c0, 0x04c5, 0x04c6, 0x04ff, 0x0500, 0x073a, 0x073b, 0x0742, 0x0743,
                           0x163c, 0x163d, 0x0300, -1, -32768, rng.randrange(-2 ** 15, 2 ** 15)])
         def i16():
